@@ -61,7 +61,10 @@ def value_for(t):
         named = st.tuples(gen.datetimes(micro=False), st.sampled_from(NAMED_ZONES)).map(lambda t_: t_[0].replace(tzinfo=t_[1]))
         return st.one_of(naive, aware, aware, named)
     if t == 'duration':
-        return st.one_of(st.integers(0, 10 ** 7).map(lambda s: datetime.timedelta(seconds=s)),
+        return st.one_of(st.sampled_from([datetime.timedelta(microseconds=50), datetime.timedelta(microseconds=1),
+                                          datetime.timedelta(days=40000, seconds=3, microseconds=7),
+                                          datetime.timedelta(seconds=59, microseconds=999999)]),
+                         st.integers(0, 10 ** 7).map(lambda s: datetime.timedelta(seconds=s)),
                          st.tuples(st.integers(0, 400), st.integers(0, 86399)).map(lambda x: datetime.timedelta(days=x[0], seconds=x[1])))
     if t == 'array':
         return st.lists(st.one_of(gen.json_values(), gen.decimals_mixed(10), gen.dates()), max_size=3)
@@ -75,7 +78,7 @@ def cases_(draw):
     n_res = draw(st.sampled_from([1, 1, 1, 2, 2, 2, 0]))      # (0: a package that has no resources at all)
     pkg = []
     for i in range(n_res):
-        nf = draw(st.integers(1, 4))
+        nf = draw(st.sampled_from([1, 2, 3, 4, 1, 2, 3, 0]))       # (0: a resource without fields - its rows are {})
         names = draw(st.lists(st.sampled_from(['a', 'b', 'é', 'x y', 'n', 'when']), min_size=nf, max_size=nf, unique=True))
         flds = [{'name': nm, 'type': draw(st.sampled_from(TYPES))} for nm in names]
         k = draw(st.integers(0, 6))
@@ -99,7 +102,7 @@ def cases_(draw):
     # prebuilt: every Flow object of the history is constructed up front (before any run / delete happens)
     return {'pkg': pkg, 'n_cp': n_cp, 'ops': ops, 'prebuilt': draw(st.integers(0, 3)) == 0,
             # checkpoint names: plain, or paths that share their last component (daily/load, weekly/load, ...)
-            'names': draw(st.sampled_from(['plain', 'plain', 'shared-last-component'])),
+            'names': draw(st.sampled_from(['plain', 'plain', 'shared-last-component', 'nested-directories'])),
             # a structural step behind the last checkpoint: it drops / merges resources of the checkpointed stream
             'tail': draw(st.sampled_from([None, None, 'delete_first', 'delete_last', 'concatenate_all', 'head', 'head'])) if n_res >= 2
             else draw(st.sampled_from([None, None, 'head']))}
@@ -157,6 +160,8 @@ def check(case, ctx):
     def cp_name(j):
         if case.get('names') == 'shared-last-component':
             return ['daily', 'weekly', 'monthly'][j - 1] + '/load'
+        if case.get('names') == 'nested-directories':
+            return ['etl/load/raw', 'etl/load', 'etl'][j - 1]       # a later checkpoint's directory holds the earlier ones'
         return 'cp%d' % j
 
     class Boom(Exception):
@@ -279,7 +284,10 @@ def check(case, ctx):
                 classes.append('failed-run-in-history')
                 continue
             shutil.rmtree(os.path.join(cp_root, cp_name(op[1])), ignore_errors=True)
-            existing.discard(op[1])
+            for j_ in range(1, n_cp + 1):
+                # (removing a directory removes the checkpoints kept in directories below it)
+                if cp_name(j_) == cp_name(op[1]) or cp_name(j_).startswith(cp_name(op[1]) + '/'):
+                    existing.discard(j_)
             pending_delete = first is not None
             continue
         counts = [0] * (n_cp + 3)
